@@ -1304,10 +1304,14 @@ public:
         classifier_.build(samples.data(), sample_size, splitter_lcp_);
 
         // create new jobs
-        pwork_ = parts_;
-        for (unsigned int p = 0; p < parts_; ++p)
+        // once the last job is enqueued, the other threads may finish the
+        // whole step and delete it: do not touch any member afterwards
+        const size_t parts = parts_;
+        Context& ctx = ctx_;
+        pwork_ = parts;
+        for (unsigned int p = 0; p < parts; ++p)
         {
-            ctx_.threads_.enqueue([this, p]() { count(p); });
+            ctx.threads_.enqueue([this, p]() { count(p); });
         }
     }
 
@@ -1366,10 +1370,14 @@ public:
         assert(sum == strptr_.size());
 
         // create new jobs
-        pwork_ = parts_;
-        for (unsigned int p = 0; p < parts_; ++p)
+        // once the last job is enqueued, the other threads may finish the
+        // whole step and delete it: do not touch any member afterwards
+        const size_t parts = parts_;
+        Context& ctx = ctx_;
+        pwork_ = parts;
+        for (unsigned int p = 0; p < parts; ++p)
         {
-            ctx_.threads_.enqueue([this, p]() { distribute(p); });
+            ctx.threads_.enqueue([this, p]() { distribute(p); });
         }
     }
 
